@@ -11,6 +11,7 @@ import KmipModel.Shutdown
 import KmipModel.Client
 import KmipModel.Stream
 import Driver.IoStackIO
+import KmipModel.DecodeStack
 import KmipModel.Io
 /-
   kvdriver: one request per input line, one reply per output line.  Runs the executable model and the
@@ -160,6 +161,23 @@ def step (line : String) : String :=
     | some sd, some bs, some f =>
       match decodeSD sd bs f with
       | .ok (v, n, _) => s!"ok {n} " ++ showVal v
+      | .err .eof => "eof"
+      | .err .other => "err"
+      | .panic s => "panic " ++ s
+    | _, _, _ => "bad-op"
+  -- decstk TYPE FIN EAGER CHUNKS: NewDecoder(plain io.Reader delivering CHUNKS).Decode(&T{}) through the reader-stack model
+  -- (KmipModel/DecodeStack.lean); reply: the value and how many bytes the Decoder's bufio has fetched from the source
+  | ["decstk", ty, fin, eager, chunks] =>
+    let cs := if chunks = "." then some [] else (chunks.splitOn ";").mapM (fun c => if c = "-" then some [] else fromHex c)
+    match findSD ty, cs, (if fin = "eof" then some Fin.eof else if fin = "ioerr" then some Fin.ioerr else none) with
+    | some sd, some cs, some f =>
+      let src : Io.Src := ⟨cs, f, eager = "1"⟩
+      match Stk.decodeSrc sd src with
+      | .ok (v, _, x) =>
+        let left := match x.s with
+          | .buf (.src s') _ _ _ => s'.flat.length
+          | _ => 0
+        s!"ok {showVal v} pulled={src.flat.length - left}"
       | .err .eof => "eof"
       | .err .other => "err"
       | .panic s => "panic " ++ s
